@@ -168,12 +168,16 @@ func residueOf(vm *hsruntime.VM, core *hsruntime.Core) sb.Residue {
 		r.CatchLabels = len(core.ExceptionCatchLabels)
 		r.MemPtr = core.MemoryPointer
 	}
-	if vm.Cores.Lock.TryLock() {
-		r.Cores = len(vm.Cores.Cores)
-		r.LockFree = true
-		vm.Cores.Lock.Unlock()
-	} else {
-		r.Cores = -1
+	// cores that are finishing their last quantum may hold the lock for a moment
+	r.Cores = -1
+	for try := 0; try < 40; try++ {
+		if vm.Cores.Lock.TryLock() {
+			r.Cores = len(vm.Cores.Cores)
+			r.LockFree = true
+			vm.Cores.Lock.Unlock()
+			break
+		}
+		time.Sleep(5 * time.Millisecond)
 	}
 	return r
 }
@@ -251,6 +255,11 @@ func RunVM(req *sb.Request, mods map[string]ast.AnalyzedProgram) (res sb.RunResu
 		core := vm.SpawnAsync(hsruntime.MainFn(), nil, nil, nil)
 		_, i := vm.Wait()
 		res.Outcome = vmOutcome(i)
+		if i != nil {
+			// other cores (possibly including main) may still be inside their last quantum: their
+			// fields must not be read from here
+			core = nil
+		}
 		res.Residue = residueOf(&vm, core)
 	} else {
 		res.Outcome = sb.Outcome{Class: "ok"}
@@ -299,6 +308,9 @@ func invokeVM(vm *hsruntime.VM, compiled compiler.CompileOutput, rec *Recorder, 
 		core = vm.SpawnAsync(fi, nil, nil, nil)
 		n, i := vm.Wait()
 		r = vm.HandleTermination(core, fi, i, n)
+		if i != nil {
+			core = nil
+		}
 	} else {
 		r = vm.SpawnSync(fi, nil, nil)
 	}
